@@ -601,7 +601,7 @@ pub fn generate(seed: u64, cases: usize, max_samples: usize, focus: &str, out: &
             let len = (i % (2 * bs + 1)).min(max_samples / pcm.channels);
             pcm = gen::pcm(&mut rng, pcm.family, pcm.channels, pcm.bps, pcm.rate, len);
         }
-        if focus == "manyframes" {
+        if focus.starts_with("manyframes") {
             // frame numbers crossing 127/128, 2047/2048 (coded-number length boundaries): tiny blocks
             cfg.block_size = *rng.pick(&[32usize, 33]);
             let all = [126usize, 129, 1023, 1025, 1030, 2047, 2049];
@@ -665,6 +665,7 @@ pub fn generate(seed: u64, cases: usize, max_samples: usize, focus: &str, out: &
             }
         }
         let mode = match i % 8 {
+            _ if focus == "manyframes-mt" => "mt:2".to_string(),
             0 | 1 | 2 | 3 => "st".to_string(),
             4 => "frames".to_string(),
             5 => format!("mt:{}", 1 + rng.below(3)),
@@ -673,6 +674,14 @@ pub fn generate(seed: u64, cases: usize, max_samples: usize, focus: &str, out: &
         };
         let src = *rng.pick(&["mem", "bytes", "nohint", "bytes_nohint"]);
         let olog = mode == "st";
+        // the block size is an ARGUMENT of the encode call; the configuration carries one of its own, which
+        // must not influence the stream (STREAMINFO bounds are restored from the argument)
+        if focus == "none" && rng.chance(15) {
+            let other = *rng.pick(&[32usize, 192, 1024, 4096, 32767]);
+            if other != cfg.block_size {
+                cfg.cfg_bs = other;
+            }
+        }
         out(run_record(&format!("s{i}"), &cfg, &pcm, &mode, src, olog));
     }
 }
